@@ -114,7 +114,7 @@ fn case(m: &mut Mon, r: &mut Rng, _idx: u64) {
     let desc = |op: &str| format!("{} m={} a={}{} b={}{}", op, gen::hex(&ml), if na { "-" } else { "" }, gen::hex(&a), if nb { "-" } else { "" }, gen::hex(&b));
     let nt = if gen::nlimbs(&a) > 0 && gen::nlimbs(&b) > 0 && !mm.is_one() { Some(h) } else { None };
     let form = r.below(4);
-    match r.below(12) {
+    match r.below(15) {
         0..=3 => {
             m.check("ring_ops", &format!("{}/a{}", kind, gen::size_class(gen::nlimbs(&a))), nt, &|| desc("ring_ops"), || {
                 ensure!(nat_of(&ring.value()) == mm, "value", "ring.value() = {}", show_u(&ring.value()));
@@ -269,6 +269,132 @@ fn case(m: &mut Mon, r: &mut Rng, _idx: u64) {
                 Ok(())
             });
         }
+        12 | 13 => {
+            // an element takes over another element's value AND ring: clone_from / assignment / swap between two rings
+            // (equal and different word counts), then arithmetic in the new ring; the source stays untouched
+            let ml3 = if r.chance(1, 2) {
+                // same word count as the first modulus
+                let mut v = gen::shape(r, mlen);
+                if gen::nlimbs(&v) != mlen {
+                    v = ml.clone();
+                    v[0] ^= 1 + r.below(1000);
+                }
+                if gen::nlimbs(&v) == 0 { vec![7] } else { v }
+            } else {
+                modulus(m, r)
+            };
+            let mm3 = nat(&ml3);
+            let ring3 = ConstDivisor::new(ubig(&ml3));
+            let which = r.below(4);
+            let same_len = gen::nlimbs(&ml3) == mlen;
+            let d = || format!("ring_handover m={} m3={} a={} b={} which={}", gen::hex(&ml), gen::hex(&ml3), gen::hex(&a), gen::hex(&b), which);
+            m.check("ring_handover", &format!("{}/{}/w{}", kind, if same_len { "samelen" } else { "difflen" }, which), nt.map(|h| gen::hash_limbs(h ^ which, &ml3)), &d, || {
+                let mut x = ring.reduce(ibig(na, &a));
+                let y = ring3.reduce(ibig(nb, &b));
+                let z = ring3.reduce(ubig(&a));
+                let keep = x.clone();
+                match which {
+                    0 => x.clone_from(&y),
+                    1 => x = y.clone(),
+                    2 => {
+                        let mut t = y.clone();
+                        std::mem::swap(&mut x, &mut t);
+                        // t now holds the old x
+                        ensure!(nat_of(&t.modulus()) == mm && res(&t, &mm, "swapped out")? == mod_floor(&ia, &mm), "handover", "value swapped out changed");
+                    }
+                    _ => {
+                        // through a same-ring clone_from first (buffer reuse), then across
+                        let w = ring.reduce(ubig(&b));
+                        x.clone_from(&w);
+                        ensure!(res(&x, &mm, "clone_from same ring")? == nat(&b) % &mm, "handover", "clone_from within the ring = {}", show_u(&x.residue()));
+                        x.clone_from(&y);
+                    }
+                }
+                let rb3 = mod_floor(&ib, &mm3);
+                ensure!(nat_of(&x.modulus()) == mm3, "handover", "modulus() after taking over an element of another ring = {} want {}", show_u(&x.modulus()), show_nat(&mm3));
+                ensure!(res(&x, &mm3, "handover residue")? == rb3, "handover", "residue after handover = {} want {}", show_u(&x.residue()), show_nat(&rb3));
+                ensure!(x == y, "handover", "x != y after handover");
+                // arithmetic in the new ring must work and be right
+                let ra3 = nat(&a) % &mm3;
+                let s = catch(|| (&x + &z, &x * &z, &z - &x)).or_else(|p| fail("unexpected_panic", format!("arithmetic after handover: {}", p)))?;
+                ensure!(res(&s.0, &mm3, "sum")? == (&rb3 + &ra3) % &mm3, "handover", "sum after handover = {}", show_u(&s.0.residue()));
+                ensure!(res(&s.1, &mm3, "prod")? == (&rb3 * &ra3) % &mm3, "handover", "product after handover = {}", show_u(&s.1.residue()));
+                ensure!(res(&s.2, &mm3, "dif")? == (&mm3 + &ra3 - &rb3) % &mm3, "handover", "difference after handover = {}", show_u(&s.2.residue()));
+                // the source and the earlier clone are untouched and still belong to their rings
+                ensure!(res(&y, &mm3, "source")? == rb3 && nat_of(&y.modulus()) == mm3, "handover", "source changed");
+                ensure!(res(&keep, &mm, "earlier clone")? == mod_floor(&ia, &mm) && nat_of(&keep.modulus()) == mm, "handover", "earlier clone changed");
+                // and mixing with the old ring must now panic (unless the rings are the same instance: they are not)
+                if catch(|| (&x + &keep).residue()).is_ok() {
+                    return fail("no_panic", "element handed over to another ring still adds to elements of the old ring".to_string());
+                }
+                Ok(())
+            });
+        }
+        14 => {
+            // inverse when a and m share a large common factor g (1..4 words; low word 1, 2^k+1, all shapes):
+            // m = g*t, a = g*s: never invertible (unless g = 1); and a = s coprime by construction: check inv exactly
+            let gl = match r.below(4) {
+                0 => {
+                    let n = 2 + r.usize(3);
+                    let mut v = gen::shape(r, n);
+                    v[0] = 1;
+                    if gen::nlimbs(&v) < 2 { v = vec![1, 1]; }
+                    v
+                }
+                1 => {
+                    let mut v = vec![0u64; 2 + r.usize(3)];
+                    v[0] = 1;
+                    let n = v.len();
+                    v[n - 1] = 1u64 << r.below(64);
+                    v
+                }
+                2 => {
+                    let n = 1 + r.usize(4);
+                    gen::shape(r, n)
+                }
+                _ => gen::mag(r, 6),
+            };
+            let g = nat(&gl).max(BigUint::from(2u32));
+            let t = nat(&gen::mag(r, 5)).max(BigUint::one());
+            let s = nat(&operand(r, 2)).max(BigUint::one());
+            let mm2 = &g * &t;
+            let av = &g * &s;
+            let ring2 = ConstDivisor::new(ubig(&limbs_of_nat(&mm2)));
+            let d = || format!("inv_common_factor g={} t={} s={} neg={}", show_nat(&g), show_nat(&t), show_nat(&s), na);
+            let gw = gen::nlimbs(&limbs_of_nat(&g));
+            m.check("inv_common_factor", &format!("g{}w{}", gen::size_class(gw), if limbs_of_nat(&g)[0] == 1 && gw > 1 { "/low1" } else { "" }), Some(gen::hash_limbs(gen::hash_limbs(h, &limbs_of_nat(&g)), &limbs_of_nat(&s))), &d, || {
+                let ai = if na { -BigInt::from(av.clone()) } else { BigInt::from(av.clone()) };
+                let x = ring2.reduce(ibig(na, &limbs_of_nat(&av)));
+                let ra = mod_floor(&ai, &mm2);
+                ensure!(res(&x, &mm2, "reduce")? == ra, "reduce", "reduce(g*s)");
+                let invertible = ra.gcd(&mm2).is_one();
+                match catch(|| x.inv()).or_else(|p| fail("unexpected_panic", format!("inv: {}", p)))? {
+                    Some(v) => {
+                        ensure!(invertible, "inv", "inv() = Some({}) but gcd(a, m) = {}", show_u(&v.residue()), show_nat(&ra.gcd(&mm2)));
+                        ensure!((res(&v, &mm2, "inv")? * &ra) % &mm2 == BigUint::one() % &mm2, "inv", "a * inv(a) != 1");
+                    }
+                    None => ensure!(!invertible, "inv", "inv() = None but gcd(a, m) = 1"),
+                }
+                let y = ring2.reduce(ubig(&b));
+                if !invertible && catch(|| (&y / &x).residue()).is_ok() {
+                    return fail("no_panic", "division by a non-invertible element (large common factor) returned".to_string());
+                }
+                // the cofactor s alone, made coprime to m by stripping common factors
+                let mut sc = s.clone();
+                loop {
+                    let c = sc.gcd(&mm2);
+                    if c.is_one() { break; }
+                    sc /= c;
+                }
+                let xs = ring2.reduce(ubig(&limbs_of_nat(&sc)));
+                let rs = &sc % &mm2;
+                match catch(|| xs.inv()).or_else(|p| fail("unexpected_panic", format!("inv: {}", p)))? {
+                    Some(v) => ensure!((res(&v, &mm2, "inv")? * &rs) % &mm2 == BigUint::one() % &mm2, "inv", "s * inv(s) != 1 for s coprime to m"),
+                    None => ensure!(mm2.is_one() && false, "inv", "inv() = None for s coprime to m"),
+                }
+                Ok(())
+            });
+        }
         _ => {
             // num_modular::Reducer facade
             m.check("reducer", kind, nt, &|| desc("reducer"), || {
@@ -306,9 +432,9 @@ fn main() {
         prop: "C13",
         quick_cases: 300_000,
         thorough_cases: 10_000_000,
-        rule: "Moduli: 1, 2, 2^k (word and multi-word), single word with top bit set / clear (normalisation shift 0 / > 0), double word, multi-word with special top words, all-ones; operands of any sign from 0 to 3x the modulus length incl. all-ones double words; exponents 0, 1, 2, 2^k, 2^k-1, 1..4 words; non-invertible elements built as g*t with g | m; elements of a second ConstDivisor (same and different modulus) must panic; num_modular::Reducer facade on the same data. non-trivial = non-zero operands, modulus > 1.",
+        rule: "Moduli: 1, 2, 2^k (word and multi-word), single word with top bit set / clear (normalisation shift 0 / > 0), double word, multi-word with special top words, all-ones; operands of any sign from 0 to 3x the modulus length incl. all-ones double words; exponents 0, 1, 2, 2^k, 2^k-1, 1..4 words; non-invertible elements built as g*t with g | m; elements of a second ConstDivisor (same and different modulus) must panic; num_modular::Reducer facade on the same data; ring_handover: an element takes over value and ring of an element of another ConstDivisor (clone_from, assignment, swap; equal and different word counts) and must then report the new modulus, compute in the new ring and refuse the old one; inv_common_factor: m = g*t, a = g*s with g of 1..6 words (low word 1, 2^k+1, shapes). non-trivial = non-zero operands, modulus > 1.",
         assumptions: &["num-bigint mod_floor / modpow / gcd are correct", "modulo 1 every residue is 0 and every element is invertible (gcd(0,1) = 1)"],
-        required: &[("ring_ops/word", false), ("ring_ops/dword", false), ("ring_ops/large", false), ("pow", false), ("inv_div", false), ("different_rings", false), ("reducer", false)],
+        required: &[("ring_ops/word", false), ("ring_ops/dword", false), ("ring_ops/large", false), ("pow", false), ("inv_div", false), ("different_rings", false), ("reducer", false), ("ring_handover", false), ("inv_common_factor", false)],
         case,
         selftest: None,
         panic_finding: None,
